@@ -118,6 +118,7 @@ def step(kind):
         other.attrs["run_experiment"] = other_fn
         class_before = dict(cls.ns)
         mod_before = dict(env.vars)
+        it.ctx.begin_call()
         if kind == "recompile":
             inst = PyInstance(cls)
             old_fn = OldFn("old-function")
@@ -221,9 +222,10 @@ def analyse(kind, timeout_ms):
                                      "plain": ""})
             out["extra_state"] = extra
         if snap["class_changed"] or snap["module_changed"] or snap["other_changed"] or foreign:
-            bad("%s writes outside the instance: class %s module %s other-instance %s effects %s" % (
-                kind, snap["class_changed"], snap["module_changed"], snap["other_changed"],
-                [(e[0], e[2]) for e in foreign][:3]), "isolation")
+            out["witnesses"].append({"kind": "lifecycle_search", "scenario": "isolation",
+                                     "why": "%s writes outside the instance: class %s module %s other-instance %s effects %s" % (
+                                         kind, snap["class_changed"], snap["module_changed"], snap["other_changed"],
+                                         [(e[0], str(e[2])[:30]) for e in foreign][:3]), "plain": ""})
         if kind == "call":
             if not (res[0] == "return" and isinstance(res[1], tuple) and len(res[1]) == 2
                     and isinstance(res[1][0], str) and res[1][0] == "old-function"
